@@ -164,3 +164,47 @@ Definition uv_ref (s : bytes) : option nat :=
   | UvStop n => Some n
   | UvEnd => Some (length s)
   end.
+
+(* ---- documents (TextDoc) ---- *)
+From JV Require TextTape TextDoc.
+
+(* counting the Open / Close tokens of a rendering's own token list (TextDoc.toks_fields): the tokens
+   that follow the Close matching an Open seen [depth] levels up *)
+Definition is_lb (t : TextDoc.rtok) : bool := match fst t with [c] => N.eqb c 123 | _ => false end.
+Definition is_rb (t : TextDoc.rtok) : bool := match fst t with [c] => N.eqb c 125 | _ => false end.
+Fixpoint match_close (depth : nat) (ts : list TextDoc.rtok) : option (list TextDoc.rtok) :=
+  match ts with
+  | [] => None
+  | t :: ts' =>
+      if is_lb t then match_close (S depth) ts'
+      else if is_rb t then (if Nat.leb depth 1 then Some ts' else match_close (depth - 1) ts')
+      else match_close depth ts'
+  end.
+
+(* documents on which byte skipping and token counting provably agree: no parameter blocks, no
+   interpolated expressions; bare words are TextDoc.wf_word, hold no double quote (nor brace nor
+   hash: these are boundary bytes anyway) and do not start with '?' (the token reader would split
+   "?x" into an operator and a word); quoted content is TextDoc.wf_quo *)
+Definition simple_word (u : bytes) : bool :=
+  TextDoc.wf_word u && forallb (fun c => negb (sk_special c)) u &&
+  match u with c :: _ => negb (N.eqb c 63) | [] => false end.
+Definition simple_scalar (k : TextDoc.skind) (s : bytes) : bool :=
+  match k with TextDoc.Unq => simple_word s | TextDoc.Quo => TextDoc.wf_quo s end.
+
+Fixpoint simple_value (v : TextDoc.value) : bool :=
+  match v with
+  | TextDoc.VScalar k s => simple_scalar k s
+  | TextDoc.VObject fs tl => simple_fields fs && simple_values tl
+  | TextDoc.VArray items => simple_values items
+  | TextDoc.VArrayKv items kvs => simple_values items && simple_fields kvs
+  | TextDoc.VHeader name v => simple_word name && simple_value v
+  end
+with simple_field (f : TextDoc.field) : bool :=
+  match f with
+  | TextDoc.Field k key op v => simple_scalar k key && simple_value v
+  | _ => false
+  end
+with simple_fields (fs : TextDoc.fields) : bool :=
+  match fs with TextDoc.FNil => true | TextDoc.FCons f fs' => simple_field f && simple_fields fs' end
+with simple_values (vs : TextDoc.values) : bool :=
+  match vs with TextDoc.VNil => true | TextDoc.VCons v vs' => simple_value v && simple_values vs' end.
